@@ -753,6 +753,7 @@ var libUFs = map[string][]string{
 	"moduleExists": {SStr, SBool},
 	"modaddr":      {SStr, SStr},
 	"validDenom":   {SStr, SBool},
+	"bech32ok":     {SStr, SBool},
 	"toBech32":     {SStr, SStr},
 	"fromBech32":   {SStr, SStr},
 	"strlen":       {SStr, SInt},
